@@ -30,6 +30,22 @@ def strategy(tier):
                                                   matspec.pattern_family_spec(), matspec.pattern_family_spec()), 'vseed': ints(0, 2**31)})
 
 
+# thorough tier, second engine: atheris over the pure-python encoder / imputer / pattern modules (matrix.py and encoding.py
+# hold numba functions and cannot be instrumented); one (settings, factory combination) per execution
+FUZZ_MODULES = ['adsg_core.optimization.assign_enc.lazy_encoding', 'adsg_core.optimization.assign_enc.lazy',
+                'adsg_core.optimization.assign_enc.patterns.patterns', 'adsg_core.optimization.assign_enc.patterns.encoder',
+                'adsg_core.optimization.assign_enc.eager', 'adsg_core.optimization.assign_enc.enumerating',
+                'adsg_core.optimization.assign_enc.assignment_manager']
+FUZZ_RUNS = 1500
+
+
+def fuzz_strategy(tier):
+    keys = [[c[0], c[1], c[2]] for c in registry()]
+    return st.fixed_dictionaries({'ms': st.one_of(matspec.mat_spec(max_side=3, max_patterns=3),
+                                                  matspec.pattern_family_spec()),
+                                  'vseed': ints(0, 2**31), 'combo': st.sampled_from(keys)})
+
+
 def registry():
     from adsg_core.optimization.assign_enc import encoder_registry as er
     combos = []
